@@ -403,8 +403,9 @@ namespace {
 }
 
 // a small quarantine keeps the working set (and the page-fault time) of the many short-lived allocations low; ASAN_OPTIONS from
-// the driver are applied on top of this
-extern "C" const char* __asan_default_options() { return "quarantine_size_mb=8"; }
+// the driver are applied on top of this.
+// exitcode: the driver only recognises a dead worker as a crash if its exit status is neither 0 nor 1 (ASan's default is 1)
+extern "C" const char* __asan_default_options() { return "exitcode=66:quarantine_size_mb=8"; }
 
 int main( int argc, char** argv )
 {
